@@ -1112,6 +1112,18 @@ def _find_matching_brace(
     """Finds the index of the matching closing brace, adjusting for any
         additional open braces encountered before the closing brace.
     """
+    # braces within comments (symbols between matching #, ', or ") do
+    # not count
+    symbols = [*symbols]
+    index = 0
+    while index < len(symbols):
+        symbol = symbols[index]
+        if symbol in ('"', "'", '#') and symbol in symbols[index+1:]:
+            end = symbols.index(symbol, index+1)
+            symbols[index:end+1] = [''] * (end + 1 - index)
+            index = end
+        index += 1
+
     index = symbols.index(close_brace)
 
     while index < len(symbols):
